@@ -75,6 +75,7 @@ type tracker interface {
 
 // ---- map tracker ----
 type mapT struct {
+	insync func() bool
 	des *dt.DesiredView[int, int]
 	dp  *dt.DataplaneView[int, int]
 	pu  *dt.PendingUpdatesView[int, int]
@@ -83,7 +84,7 @@ type mapT struct {
 
 func newMapT(eq func(a, b int) bool) *mapT {
 	t := dt.New[int, int](dt.WithValuesEqualFn[int, int](eq))
-	return &mapT{des: t.Desired(), dp: t.Dataplane(), pu: t.PendingUpdates(), pd: t.PendingDeletions()}
+	return &mapT{insync: t.InSync, des: t.Desired(), dp: t.Dataplane(), pu: t.PendingUpdates(), pd: t.PendingDeletions()}
 }
 func (t *mapT) DesSet(k, v int)          { t.des.Set(k, v) }
 func (t *mapT) DesDel(k int)             { t.des.Delete(k) }
@@ -141,6 +142,10 @@ func (t *mapT) Dump(univ []int) dump {
 		d.gets = append(d.gets, g)
 	}
 	d.ub = -1
+	// InSync() must say exactly "nothing pending" (a disagreement poisons the observation)
+	if t.insync != nil && t.insync() != (len(d.pu) == 0 && len(d.pd) == 0) {
+		d.poisoned = true
+	}
 	return d
 }
 
@@ -219,6 +224,9 @@ func (t *setT) Dump(univ []int) dump {
 		d.gets = append(d.gets, g)
 	}
 	d.ub = t.des.LenUpperBound()
+	if t.raw.InSync() != (len(d.pu) == 0 && len(d.pd) == 0) {
+		d.poisoned = true
+	}
 	return d
 }
 
@@ -611,7 +619,7 @@ func cacheCase(r *rng, o *out, univ []int) bool {
 		cm = cachingmap.New[int, int]("verif", f)
 	}
 	tr := cm.VerifTracker()
-	view := &mapT{des: tr.Desired(), dp: tr.Dataplane(), pu: tr.PendingUpdates(), pd: tr.PendingDeletions()}
+	view := &mapT{insync: tr.InSync, des: tr.Desired(), dp: tr.Dataplane(), pu: tr.PendingUpdates(), pd: tr.PendingDeletions()}
 	nk := 2 + r.intn(nKeys-1)
 	nops := 6 + r.intn(30)
 	sawApplyOK, sawApplyFail, sawExt := false, false, false
@@ -637,6 +645,33 @@ func cacheCase(r *rng, o *out, univ []int) bool {
 		var op string
 		nerr := 0
 		switch c := r.intn(100); {
+		case c < 4:
+			// Dataplane() pass-through: the caller tells the cache what it did to the dataplane itself
+			o.tags["cache:dataplane-passthrough"] = true
+			switch r.intn(3) {
+			case 0:
+				cm.Dataplane().Set(k, v)
+				op = fmt.Sprintf("COp (DpSet %d %d)", k, v)
+			case 1:
+				cm.Dataplane().Delete(k)
+				op = fmt.Sprintf("COp (DpDel %d)", k)
+			default:
+				if r.intn(3) == 0 {
+					cm.Dataplane().DeleteAll()
+					op = "COp DpDelAll"
+				} else {
+					// two model steps: the pass-through, then the write it reports
+					cm.Dataplane().Set(k, v)
+					op = fmt.Sprintf("COp (DpSet %d %d)", k, v)
+					d0 := view.Dump(univ)
+					for kk, vv := range f.m {
+						d0.real = append(d0.real, kv{kk, vv})
+					}
+					o.addC(op, d0)
+					f.m[k] = v
+					op = fmt.Sprintf("ExtSet %d %d", k, v)
+				}
+			}
 		case c < 24:
 			cm.Desired().Set(k, v)
 			op = fmt.Sprintf("COp (DesSet %d %d)", k, v)
@@ -871,7 +906,7 @@ func trackerCase(r *rng, o *out, univ []int, callsAfterStop *int) (string, bool)
 			}
 		}
 		d := t.Dump(univ)
-		d.poisoned = poisoned
+		d.poisoned = d.poisoned || poisoned
 		d.calls = shown
 		if len(d.pu) > 0 && len(d.pd) > 0 {
 			sawBoth = true
